@@ -7,6 +7,11 @@ func init() {
 		Run: func(c *Ctx) {
 			c.Rule("C13.R1", "writer/reader agreement of the ipinfos path", 11)
 			ruleArgsCodec(c, "C13.R1")
+			c.Rule("C13.R7", "gateway/VLAN come from the pool whose ranges contain the ip, also after a reload", 4)
+			ruleIPInfoFromPool(c, "C13.R7")
+			ruleReloadPoolMatch(c, "C13.R7")
+			c.Rule("C13.R8", "plugin decoder: j-th vlan from the j-th IPInfo", 1)
+			ruleDecoderPerIP(c, "C13.R8")
 			c.Rule("C13.R6", "reported ips are the lookup for the full request, in its order", 3)
 			ruleReportedInRequestOrder(c, "C13.R6")
 			c.Rule("C13.R4", "network selection copies all common args", 6)
